@@ -56,6 +56,15 @@ Unreach(e) == { <<If(<<[c |-> EV(e), ch |-> <<Elem("x", <<>>, <<>>)>>]>>, FALSE,
                 <<SlotEl(EV(e), <<>>)>>, <<SlotEl(None, <<Attr("plain", "p", EV(e))>>)>>,
                 <<BlockSlot(EV(e), <<Elem("x", <<>>, <<>>)>>)>>,
                 <<Elem("w", <<>>, <<If(<<[c |-> SV("yes"), ch |-> <<Elem("x", <<Attr("id", "", EV(e))>>, <<>>)>>]>>, FALSE, <<>>)>>)>> }
+              (* a binding that FOLLOWS a dynamic element nested in the dynamic subtree it stands in: leaving the inner
+                 one does not leave the outer one *)
+              \cup { <<For(SV("ab"), "item", "index", "", <<If(<<[c |-> SV("yes"), ch |-> <<Elem("x", <<>>, <<>>)>>]>>, FALSE, <<>>), Elem("v", <<Attr("plain", "p", EV(e))>>, <<>>)>>)>>,
+                     <<If(<<[c |-> SV("yes"), ch |-> <<For(SV("ab"), "item", "index", "", <<Elem("x", <<>>, <<>>)>>), Text(<<P(e)>>)>>]>>, FALSE, <<>>)>>,
+                     <<If(<<[c |-> SV("yes"), ch |-> <<SlotEl(None, <<>>), Text(<<P(e)>>)>>]>>, FALSE, <<>>)>>,
+                     <<If(<<[c |-> SV("yes"), ch |-> <<TmplIs(SV("t"), None), Elem("v", <<Attr("id", "", EV(e))>>, <<>>)>>]>>, FALSE, <<>>)>>,
+                     <<If(<<[c |-> SV("yes"), ch |-> <<If(<<[c |-> SV("yes"), ch |-> <<If(<<[c |-> SV("yes"), ch |-> <<Elem("x", <<>>, <<>>)>>]>>, FALSE, <<>>)>>]>>, FALSE, <<>>),
+                                                      Text(<<P(e)>>)>>]>>, FALSE, <<>>)>>,
+                     <<For(SV("ab"), "item", "index", "", <<Elem("w", <<>>, <<For(SV("a"), "x", "y", "", <<Elem("x", <<>>, <<>>)>>)>>), Elem("v", <<Attr("class", "", EV(e))>>, <<>>)>>)>> }
               \* a deferred call has no value the specification can unfold as a list
               \cup (IF e.k = "call" THEN {} ELSE {<<For(EV(e), "item", "index", "", <<Text(<<P(Id("item"))>>)>>)>>})
 UB == {FileD(<<BmEl(EA, EB)>> \o u) : u \in UNION {Unreach(e) : e \in {EA, Mem(Id("o"), "p"), Idx(Id("l"), EB), Arr(<<Hole, Item(Id("s"))>>),
